@@ -802,3 +802,208 @@ def spell(rng, doc) -> str | None:
         else:
             lines.append(f"{spell_key(rng, key)}: {spell_flow(rng, v)}")
     return "\n".join(lines) + rng.choice(["\n", "\n\n", "\n...\n", ""])
+
+
+# --------------------------------------------------------------------------
+# checklist: history, coincidences, sizes, names, order
+# --------------------------------------------------------------------------
+FAMILY = ["H1", "H1_0", "H1_io", "H1_", "H", "H11", "h1", "H1_0_0", "_H1", "H1__", "H1_1", "H10"]
+REGION_FAMILY = ["lut", "lut_", "lut0", "LUT", "l", "lu", "_lut", "lut_0"]
+
+
+def family_names(rng, doc):
+    """the modules renamed to names that are prefixes / suffixes of each other (and of names a tool could generate)"""
+    d = deep(doc)
+    fam = list(FAMILY)
+    if rng.random() < 0.5:
+        rng.shuffle(fam)
+    for k, new in zip(list(d["Modules"]), fam):
+        if new not in d["Modules"]:
+            d = rename_module(d, k, new)
+    for i in d["Modules"].values():
+        if isinstance(i, dict) and isinstance(i.get("area"), dict) and not nc.doc_is_hard(i):
+            regs = rng.sample(REGION_FAMILY, min(len(i["area"]), len(REGION_FAMILY)))
+            i["area"] = {r: v for r, v in zip(regs, i["area"].values())}
+    return d
+
+
+def reorder(rng, doc):
+    """the same design listed in an unusual order: modules reversed / sorted by name / rotated, nets reversed, the
+    rectangles of every module reversed, Nets before Modules, the attributes of every module sorted or reversed"""
+    d = deep(doc)
+    how = rng.choice(["reverse-modules", "sort-modules", "sort-desc-modules", "rotate-modules", "reverse-nets",
+                      "reverse-rectangles", "nets-first", "sort-attributes", "reverse-attributes", "reverse-members"])
+    mods = d["Modules"]
+    if how == "reverse-modules":
+        d["Modules"] = dict(reversed(list(mods.items())))
+    elif how == "sort-modules":
+        d["Modules"] = dict(sorted(mods.items()))
+    elif how == "sort-desc-modules":
+        d["Modules"] = dict(sorted(mods.items(), reverse=True))
+    elif how == "rotate-modules":
+        it = list(mods.items())
+        d["Modules"] = dict(it[1:] + it[:1])
+    elif how == "reverse-nets" and isinstance(d.get("Nets"), list):
+        d["Nets"] = list(reversed(d["Nets"]))
+    elif how == "reverse-rectangles":
+        for i in mods.values():
+            rs = rects_of(i)
+            if len(rs) > 1:
+                i["rectangles"] = [list(r) for r in reversed(rs)]
+    elif how == "nets-first" and "Nets" in d:
+        d = {"Nets": d["Nets"], "Modules": d["Modules"]}
+    elif how == "sort-attributes":
+        d["Modules"] = {k: (dict(sorted(i.items())) if isinstance(i, dict) else i) for k, i in mods.items()}
+    elif how == "reverse-attributes":
+        d["Modules"] = {k: (dict(reversed(list(i.items()))) if isinstance(i, dict) else i) for k, i in mods.items()}
+    elif how == "reverse-members" and isinstance(d.get("Nets"), list):
+        d["Nets"] = [list(reversed(net_members(n))) + list(n[len(net_members(n)):]) for n in d["Nets"]]
+    return d, how
+
+
+def coincide(rng, doc):
+    """valid coincidences: rectangles of exactly equal area (two candidate trunks, either order), a rectangle centred on
+    an axis (x = 0 or y = 0), a soft module whose area equals / differs from the area of its rectangles, a stated centre
+    equal to the centroid of the rectangles, a weight of exactly 1 in its three spellings"""
+    d = deep(doc)
+    mods = d["Modules"]
+    tags = []
+    with_rects = [k for k, i in mods.items() if isinstance(i, dict) and "rectangles" in i and "terminal" not in i]
+    for k in with_rects:
+        i = mods[k]
+        soft = not nc.doc_is_hard(i)
+        r = rng.random()
+        if r < 0.25:
+            # two stacked rectangles of the same size: each is a trunk for the other
+            x, y, w, h = rng.randrange(4, 40), rng.randrange(4, 40), rng.choice([2, 4, 6]), rng.choice([1, 2, 3])
+            rs = [[x, F(y), w, h], [F(x), y + h, w, F(h)]]
+            if rng.random() < 0.3:
+                rs.append([x, y + 2 * h, w, h])       # three: only the middle one is a trunk
+            rng.shuffle(rs)
+            i["rectangles"] = rs
+            tags.append("equal-rectangles")
+        elif r < 0.45:
+            # equal areas, different shapes; only the wide one is a trunk
+            x, y = rng.randrange(6, 40), rng.randrange(6, 40)
+            rs = [[x, y, 4, 2], [x, F(y + 3), 2, 4]]
+            if rng.random() < 0.5:
+                rs.reverse()
+            i["rectangles"] = rs
+            tags.append("equal-areas")
+        elif r < 0.6:
+            rs = [list(q) for q in rects_of(i)]
+            ax = rng.choice([0, 1])
+            m = min(val(q[ax]) for q in rs)
+            for q in rs:
+                q[ax] = as_entry(rng, val(q[ax]) - m)
+            i["rectangles"] = rs
+            tags.append("centre-on-axis")
+        if soft and rng.random() < 0.4:
+            tot = rect_total(i)
+            i["area"] = rng.choice([as_entry(rng, tot), {"_": as_entry(rng, tot)}, F(tot) * 2, F(tot) / 2])
+            tags.append("soft-area-vs-rectangles")
+        if soft and rng.random() < 0.4:
+            rs = rects_of(i)
+            tot = rect_total(i)
+            cx = sum(val(q[2]) * val(q[3]) * val(q[0]) for q in rs) / tot
+            cy = sum(val(q[2]) * val(q[3]) * val(q[1]) for q in rs) / tot
+            if all(c.denominator & (c.denominator - 1) == 0 and c.denominator <= 2 ** 20 for c in (cx, cy)):
+                i["center"] = [as_entry(rng, cx), as_entry(rng, cy)]
+                tags.append("centre-equals-centroid")
+        if "flip" in i and len(rects_of(i)) > 1:
+            i.pop("flip")
+    nets = d.get("Nets")
+    if isinstance(nets, list):
+        for j, n in enumerate(nets):
+            if rng.random() < 0.3:
+                nets[j] = list(net_members(n)) + [rng.choice([1, F(1), True])]
+                tags.append("weight-one")
+    return d, tags
+
+
+def histories(rng, doc):
+    """what the same process loaded before: designs with the same module names and other contents, the same design
+    scaled, a rejected variant of the design, the design itself"""
+    out = []
+    names = list(mods_of(doc))
+    for _ in range(rng.choice([1, 1, 2, 3])):
+        r = rng.random()
+        if r < 0.4:
+            other = nc.gen_doc(rng, quirks=False)
+            for k, new in zip(list(other["Modules"]), rng.sample(names, min(len(names), len(other["Modules"])))):
+                if new not in other["Modules"]:
+                    other = rename_module(other, k, new)
+            h = other
+        elif r < 0.6:
+            def scale(x):
+                if isinstance(x, bool):
+                    return x
+                if isinstance(x, (int, F)):
+                    return x * 2
+                if isinstance(x, dict):
+                    return {k: (scale(v) if k not in ("aspect_ratio",) else v) for k, v in x.items()}
+                if isinstance(x, list):
+                    return [scale(v) for v in x]
+                return x
+            h = scale(deep(doc))
+        elif r < 0.8:
+            cls = rng.choice(nc.CLASSES)
+            vs = list(variants(rng, doc, cls, per_kind=4)) if isinstance(doc.get("Modules"), dict) and doc["Modules"] else []
+            h = rng.choice(vs)[1] if vs else deep(doc)
+        else:
+            h = deep(doc)
+        out.append({"doc": h, "via": rng.choice(["tree", "text", "text"]), "write": rng.random() < 0.7})
+    return out
+
+
+def sized_doc(rng, modules=3, nets=2, arity=3, rects=1, name_len=None, regions=1):
+    """A well-formed document of a given size: number of modules, of nets, members per net, rectangles of the first
+    (hard) module and of the second (soft) one, length of the module names, regions of the third module's area."""
+    def name(j):
+        base = f"M{j}"
+        return base if name_len is None else (base + "_" + "x" * name_len)[:max(name_len, len(base))]
+    mods = {}
+    for j in range(modules):
+        kind = j % 4
+        if kind == 0:
+            k = max(1, rects)
+            # a trunk with unit branches around it (up to 4 * 40 of them)
+            boxes = [(10, 10, 50, 50)]
+            for b in range(k - 1):
+                side, pos = divmod(b, 40)
+                pos = 10 + pos
+                boxes.append([(pos, 50, pos + 1, 51), (50, pos, 51, pos + 1), (pos, 9, pos + 1, 10), (9, pos, 10, pos + 1)][side % 4])
+            rs = [[F(x0 + x1, 2), F(y0 + y1, 2), x1 - x0, y1 - y0] for x0, y0, x1, y1 in boxes]
+            rng.shuffle(rs)
+            mods[name(j)] = {"hard": True, "rectangles": rs}
+        elif kind == 1:
+            k = max(1, rects)
+            rs = [[F(61 + 2 * (b % 40)), F(11 + 2 * (b // 40)), 1, 1] + ([rng.choice(["lut", "dsp"])] if b % 3 == 0 else [])
+                  for b in range(k)]
+            mods[name(j)] = {"area": k + 3, "rectangles": rs}
+        elif kind == 2:
+            mods[name(j)] = {"area": {("_" if r == 0 else f"r{r}"): as_entry(rng, F(r + 1)) for r in range(max(1, regions))},
+                             "center": [j % 97, F(j % 89, 2)]}
+        else:
+            mods[name(j)] = {"terminal": True, "center": [F(j % 101), j % 53]}
+    names = list(mods)
+    ns = []
+    for e in range(nets):
+        a = min(arity, len(names)) if rng.random() < 0.8 else arity
+        mem = rng.sample(names, a) if a <= len(names) else [rng.choice(names) for _ in range(a)]
+        ns.append(mem + ([as_entry(rng, F(rng.randrange(1, 9), 2))] if e % 2 else []))
+    return {"Modules": mods, "Nets": ns}
+
+
+SIZES_QUICK = [dict(modules=10), dict(modules=17), dict(modules=33), dict(modules=65), dict(modules=101), dict(modules=257),
+               dict(modules=12, nets=33), dict(modules=12, nets=101), dict(modules=40, nets=3, arity=9),
+               dict(modules=40, nets=3, arity=17), dict(modules=40, nets=3, arity=33), dict(modules=70, nets=2, arity=65),
+               dict(modules=5, rects=9), dict(modules=5, rects=10), dict(modules=5, rects=17), dict(modules=5, rects=33),
+               dict(modules=5, rects=65), dict(modules=4, name_len=32), dict(modules=4, name_len=33), dict(modules=4, name_len=64),
+               dict(modules=4, name_len=255), dict(modules=4, name_len=256), dict(modules=4, name_len=1000),
+               dict(modules=4, regions=9), dict(modules=4, regions=17), dict(modules=4, regions=33)]
+SIZES_THOROUGH = SIZES_QUICK + [dict(modules=9), dict(modules=16), dict(modules=32), dict(modules=64), dict(modules=100),
+                                dict(modules=256), dict(modules=1001), dict(modules=300, nets=257, arity=4),
+                                dict(modules=300, nets=2, arity=257), dict(modules=5, rects=101), dict(modules=5, rects=161),
+                                dict(modules=4, name_len=4097), dict(modules=4, regions=65), dict(modules=4, regions=101),
+                                dict(modules=20, nets=1001, arity=2)]
